@@ -1283,6 +1283,11 @@ impl QueryRouter {
     }
 
     /// Set active_role as the default_role specified in the pool.
+    /// Pin the role, e.g. when an earlier statement of the same batch needs the primary.
+    pub fn set_role(&mut self, role: Option<Role>) {
+        self.active_role = role;
+    }
+
     pub fn set_default_role(&mut self) {
         self.active_role = self.pool_settings.default_role;
     }
